@@ -1,8 +1,9 @@
 #!/bin/bash
+VERIF_HOME="$(cd "$(dirname "$(realpath "$0")")/.." && pwd)"
 # usage: dev/run_seeds.sh [seed dirs...]   (default: all under /verif/seeded)
 # For every seeded change: confirm (tests pass, demo fails with / passes without)
 # and run the quick check(s) listed in its meta.json "checks" (default: its own property).
-cd /verif
+cd "$VERIF_HOME"
 dirs=("$@"); [ ${#dirs[@]} -eq 0 ] && dirs=(seeded/*/)
 for d in "${dirs[@]}"; do
   d=${d%/}; name=$(basename $d)
